@@ -358,7 +358,11 @@ def run_case(case, repo_checks=True):
                     sched, trace, faults, i)
             rec['sizehint'] = size
         elif t['type'] == 'copy':
-            data = pattern_bytes(size, salt)
+            if t.get('virtual'):
+                from .fakes3 import SizedBlob
+                data = SizedBlob(size)
+            else:
+                data = pattern_bytes(size, salt)
             rec['expect'] = data
             svc.objects[(SRC_BUCKET, _srckey(i))] = data
             cs = {'Bucket': SRC_BUCKET, 'Key': _srckey(i)}
